@@ -4,4 +4,5 @@ CONSTANTS
   Procs = {1,2,3,4,5,6,7}
   Fixed = FALSE
   EnableFirst = TRUE
-INVARIANTS LinWeak QuiescentAgrees AtMostOnceI NoInventionI NoLostWakeupQ ParkedRegistered WaitersSane
+  Mon = FALSE
+INVARIANTS AtMostOnceI NoInventionI NoLostWakeupQ ParkedRegistered WaitersSane
